@@ -109,7 +109,7 @@ func openMetadataEntry(log ipfslog.Log, e ipfslog.Entry, g *protocoltypes.Group)
 
 // FIXME: use iterator instead to reduce resource usage (require go-ipfs-log improvements)
 func (m *MetadataStore) ListEvents(_ context.Context, since, until []byte, reverse bool) (<-chan *protocoltypes.GroupMetadataEvent, error) {
-	entries, err := getEntriesInRange(m.OpLog().GetEntries().Reverse().Slice(), since, until)
+	entries, err := getEntriesInRange(m.OpLog().Values().Slice(), since, until)
 	if err != nil {
 		return nil, err
 	}
